@@ -42,7 +42,10 @@ Play(ops, i, m) ==      \* m: set of <<inst, attr, value>>
        IN Chk(o[6] = "ok", "Raised")
           \cup (IF o[1] = "get" THEN Chk(o[5] = cur, "NotItsOwnValue") ELSE {})
           \cup (IF o[1] = "aug" /\ o[6] = "ok" THEN Chk(o[5] = new, "NotItsOwnValue") ELSE {})
-          \cup Play(ops, i + 1, IF o[1] \in {"set", "aug"} THEN {x \in m : ~(x[1] = o[2] /\ x[2] = o[4])} \cup {<<o[2], o[4], new>>} ELSE m)
+          (* "copy": a shallow copy o[2] of the object o[7] starts with the values of the original, and is its own object afterwards *)
+          \cup Play(ops, i + 1, IF o[1] \in {"set", "aug"} THEN {x \in m : ~(x[1] = o[2] /\ x[2] = o[4])} \cup {<<o[2], o[4], new>>}
+                                ELSE IF o[1] = "copy" /\ o[6] = "ok" THEN m \cup {<<o[2], x[2], x[3]>> : x \in {y \in m : y[1] = o[7]}}
+                                ELSE m)
 V29 == Play(T.ops, 1, {})
 Verdict == CASE T.kind = "c27" -> V27 [] T.kind = "c28" -> V28 [] T.kind = "c29" -> V29
 TInit == tid \in DOMAIN All /\ l = 1
